@@ -354,7 +354,11 @@ func caller(narrow bool) (id, secret string) {
 }
 
 func (s *st) freeOp(tag string, narrow bool) {
-	switch zz.Choice("op", 4) {
+	switch zz.Choice("op", 5) {
+	case 4:
+		// an unrelated authorization (another client's, never redeemed) between the redemption and the replay
+		s.cover("free:unrelated-authorization")
+		s.authorize("c2", false)
 	case 0:
 		k := zz.Choice("code", len(s.code)+1)
 		id, secret := caller(narrow)
